@@ -30,7 +30,10 @@ import (
 // socket idle, until the ages are B s + a margin; the model sees Tick B),
 // "restart" (interface Down then Up: every peer is stopped and started),
 // "keepalive" (a keepalive-only transmission: the peer's persistent keepalive is switched on through UAPI,
-// which calls SendKeepalive at once, and off again).
+// which calls SendKeepalive at once, and off again),
+// "abandon" (the retransmit-handshake timer callback with the attempts counter at its maximum: the attempt
+// is given up), "retransmit" (the same callback with the counter at 0: SendHandshakeInitiation(true); the
+// model sees Initiate false).
 type Ev struct {
 	K string `json:"k"`
 	A uint64 `json:"a,omitempty"`
@@ -124,7 +127,7 @@ func (r *runner) do(e Ev) Obs {
 	var out cosim.Out
 	if r.idle {
 		switch e.K {
-		case "init", "resp", "cr", "idle", "restart":
+		case "init", "resp", "cr", "idle", "restart", "retransmit":
 			r.margin = true // new keys after real idle time: whole-second ages no longer controlled
 		case "tick":
 			r.limit += time.Duration(e.A) * time.Second
@@ -211,6 +214,12 @@ func (r *runner) do(e Ev) Obs {
 			panic(fmt.Sprint("uapi set failed: ", err1, err2))
 		}
 		out = cosim.Out{Sent: append(o1.Sent, o2.Sent...), Written: append(o1.Written, o2.Written...), Settled: o1.Settled && o2.Settled}
+	case "abandon":
+		r.w.Dev.VerifC07ExpireRetransmitHandshake(r.pk, device.MaxTimerHandshakes+1)
+		out = r.w.Take()
+	case "retransmit":
+		r.w.Dev.VerifC07ExpireRetransmitHandshake(r.pk, 0)
+		out = r.w.Take()
 	case "restart":
 		if err := r.w.Dev.Down(); err != nil {
 			panic(err)
@@ -376,6 +385,7 @@ const (
 	aReplay
 	aRestart
 	aKeepalive
+	aAbandon
 )
 
 func (r *runner) sidOfIndex(idx uint32) (uint64, bool) {
@@ -467,6 +477,21 @@ func (r *runner) resolve(kind int, arg uint64, rnd *rand.Rand) []Ev {
 		return []Ev{{K: "restart"}}
 	case aKeepalive:
 		return []Ev{{K: "keepalive"}}
+	case aAbandon:
+		// an attempt is retried and then given up; often the surviving key is then used past 120 s
+		evs := []Ev{{K: "retransmit"}, {K: "abandon"}}
+		if rnd != nil && st.Current.Present && rnd.Intn(3) > 0 {
+			age := uint64(st.Current.AgeNanos / 1e9)
+			if age < 121 {
+				evs = append(evs, Ev{K: "tick", A: 121 - age + uint64(rnd.Intn(40))})
+			}
+			if rnd.Intn(2) == 0 {
+				evs = append(evs, Ev{K: "send"})
+			} else {
+				evs = append(evs, Ev{K: "keepalive"})
+			}
+		}
+		return evs
 	case aSend:
 		return []Ev{{K: "send"}}
 	case aTick:
@@ -596,7 +621,7 @@ type weighted struct {
 var randomMix = []weighted{
 	{aCI, 14}, {aCR, 14}, {aRecvPrev, 7}, {aRecvCur, 9}, {aRecvNext, 8}, {aRecvRetired, 6}, {aRecvUnaccepted, 3},
 	{aSend, 14}, {aTick, 6}, {aTickEdge, 12}, {aInitiate, 4}, {aRespondStale, 2}, {aRespondNow, 3},
-	{aForgeNext, 7}, {aForgeCur, 3}, {aForgePrev, 2}, {aForgeRetired, 2}, {aReplay, 3}, {aRestart, 5}, {aKeepalive, 9},
+	{aForgeNext, 7}, {aForgeCur, 3}, {aForgePrev, 2}, {aForgeRetired, 2}, {aReplay, 3}, {aRestart, 5}, {aKeepalive, 9}, {aAbandon, 6},
 }
 
 var tickChoices = []uint64{1, 4, 6, 45, 61, 119, 121, 164, 166, 179, 181}
@@ -692,7 +717,7 @@ var alphabet7 = []absEv{{aCI, 0}, {aCR, 0}, {aRecvPrev, 0}, {aRecvCur, 0}, {aRec
 
 // the extended alphabet: also short ticks (5 s spacing), timer-style initiation, stale response
 var alphabetFull = append(append([]absEv{}, alphabet7...), absEv{aTick, 4}, absEv{aTick, 45}, absEv{aInitiate, 0}, absEv{aRespondStale, 0}, absEv{aRespondNow, 0},
-	absEv{aForgeNext, 0}, absEv{aForgeNext, 2}, absEv{aForgeCur, 3}, absEv{aReplay, 0})
+	absEv{aForgeNext, 0}, absEv{aForgeNext, 2}, absEv{aForgeCur, 3}, absEv{aReplay, 0}, absEv{aAbandon, 0})
 
 // exhaustive enumerates all sequences over the alphabet to the given depth, up to the
 // abstract state reached: every (representative prefix, event) pair is run on a fresh device.
@@ -784,6 +809,10 @@ func stepInts(e Ev, o Obs) []uint64 {
 		k = 8
 	case "keepalive":
 		k = 9
+	case "abandon":
+		k = 10
+	case "retransmit":
+		k, a = 0, 0 // SendHandshakeInitiation(true): for the slice the same as Initiate false
 	}
 	v := []uint64{k, a, b, optInt(o.Init), b2i(o.Resp), b2i(o.Tun)}
 	for _, s := range []Slot{o.Prev, o.Cur, o.Next} {
